@@ -14,7 +14,7 @@ func stdB64(s string) string { return base64.StdEncoding.EncodeToString([]byte(s
 
 func runExtra(r *common.Rand) {
 	runCodec(r)
-	nc := run.Scale(300, 80000)
+	nc := run.Scale(300, 20000)
 	for i := 0; i < nc; i += 100 {
 		var batch []concCase
 		for j := i; j < nc && j < i+100; j++ {
@@ -23,7 +23,7 @@ func runExtra(r *common.Rand) {
 		runConcBatch(batch)
 	}
 	// the same callers through the DynamicStore of store.go, with IsAuthConfigured calls mixed in
-	nd := run.Scale(100, 5000)
+	nd := run.Scale(100, 2000)
 	for i := 0; i < nd; i += 100 {
 		var batch []concCase
 		for j := i; j < nd && j < i+100; j++ {
